@@ -242,25 +242,26 @@ theorem window_update_natural {α β : Type} (f : α → β) (w : Window α) (id
     (w.map f).update id (f p) = ((w.update id p).1.map f, (w.update id p).2.map f) := update_map f w id p
 
 open Nx.L1 Nx.Prudp in
-theorem l1_release_loop_refines_l2 (env : Env) (hnc : ∀ b, env.decompress b ≠ .error .closed) (sub : Nat) (ci : Cipher)
+theorem l1_release_loop_refines_l2 (env : Env) (hround : ∀ b, env.decompress (env.compress b) = .ok b) (sub : Nat) (ci : Cipher)
     (rel : List Packet) (c : Conn) (core : Core) (hw : SubWF c sub) (hc : cipherOf c sub = ci)
     (hgood : ∀ q ∈ rel, q.substreamId = sub ∧ hasReliable q.flags = true)
-    (herr : ∀ e, (Conn.consume env sub rel c).err = some e → e = .closed) (hr : RRel c sub core) :
+    (hwell : Core.wellAt (wrap env ci) core (rel.map wireOf)) (hr : RRel c sub core) :
     RRel (Conn.consume env sub rel c).c sub (core.consume (wrap env ci) (rel.map wireOf)) ∧
     SubWF (Conn.consume env sub rel c).c sub ∧ cipherOf (Conn.consume env sub rel c).c sub = ci :=
-  consume_refines env hnc sub ci rel c core hw hc hgood herr hr
+  consume_refines env hround sub ci rel c core hw hc hgood hwell hr
 
 open Nx.L1 Nx.Prudp in
 theorem l1_process_reliable_refines_l2 (env : Env) (sub : Nat) (c : Conn) (w : Window Packet)
     (core : Core) (nrel : Nat) (p : Packet) (hw : SubWF c sub) (hwl : sub < c.windows.length) (hwin : c.windows[sub]? = some w)
     (hgw : GoodWin sub w) (hp : p.substreamId = sub ∧ hasReliable p.flags = true) (hr : RRel c sub core) (hlive : c.eof = false)
-    (hnc : ∀ b, env.decompress b ≠ .error .closed) (herr : ∀ e, (c.processReliable env p).err = some e → e = .closed) :
+    (hround : ∀ b, env.decompress (env.compress b) = .ok b)
+    (hwell : Core.wellAt (wrap env (cipherOf c sub)) core ((w.update p.packetId p).2.map wireOf)) :
     ∃ w', (c.processReliable env p).c.windows[sub]? = some w' ∧ GoodWin sub w' ∧
       Receiver.arrive (wrap env (cipherOf c sub)) ⟨w.map wireOf, nrel, core⟩ (wireOf p) =
         ⟨w'.map wireOf, nrel + (w.update p.packetId p).2.length, (Receiver.arrive (wrap env (cipherOf c sub)) ⟨w.map wireOf, nrel, core⟩ (wireOf p)).core⟩ ∧
       RRel (c.processReliable env p).c sub (Receiver.arrive (wrap env (cipherOf c sub)) ⟨w.map wireOf, nrel, core⟩ (wireOf p)).core ∧
       SubWF (c.processReliable env p).c sub ∧ cipherOf (c.processReliable env p).c sub = cipherOf c sub :=
-  processReliable_refines env sub c w core nrel p hw hwl hwin hgw hp hr hlive hnc herr
+  processReliable_refines env sub c w core nrel p hw hwl hwin hgw hp hr hlive hround hwell
 
 open Nx.L1 Nx.Prudp in
 theorem l1_send_refines_l2 (env : Env) (now : Time) (c : Conn) (data : Bytes) (sub n pos : Nat)
@@ -546,16 +547,6 @@ example :
     (Sys.run env 0 (Sys.fresh a b) ops).nrel = 7 ∧ (Sys.run env 0 (Sys.fresh a b) ops).pend = [] ∧
     (Sys.run env 0 (Sys.fresh a b) ops).b.eof = true ∧ (Sys.run env 0 (Sys.fresh a b) ops).clean = true := by decide +kernel
 
-open Nx.L1 Nx.Prudp in
-/-- **with compression off nothing has to be assumed about exceptions**: the "`process_reliable` raises at most the
-    closed-resource error" conjunct of `Sys.runOk` follows from the coupling when `decompress` cannot fail, so safety of the
-    system holds under the remaining step hypotheses alone (`Sys.runOk0`) -/
-theorem C01_system_safety_without_compression (env : Env) (hl : EnvLaws env) (hdec : ∀ b, ∃ x, env.decompress b = .ok x)
-    (sub : Nat) (ci : Cipher) (size : Nat) (hsz : 1 ≤ size) (start : Nat) (ops : List SysOp) (s : Sys) (ch : Chan)
-    (h0 : Good env sub ci size start s ch) (hok : Sys.runOk0 env sub s ops = true) :
-    ((Sys.run env sub s ops).b.queues[sub]?.getD []) <+: (Sys.run env sub s ops).accepted :=
-  C01_system_safety env hl sub ci size hsz start ops s ch h0 (runOk_of_runOk0 env hl hdec sub ci size hsz start ops s ch h0 hok)
-
 /-- a compression that changes the bytes and whose inverse can fail (a one-byte header, as zlib's 0x78): the laws the system
     theorems assume are satisfiable by something other than the identity -/
 def markEnv : L1.Env :=
@@ -566,14 +557,11 @@ def markEnv : L1.Env :=
       | 0x78 :: r => .ok r
       | _ => .error .value }
 
-theorem markEnv_laws : L1.EnvLaws markEnv := by
-  refine ⟨fun _ => rfl, fun _ _ h => (by cases h), fun b h => ?_⟩
-  simp only [markEnv] at h
-  split at h <;> cases h
+theorem markEnv_laws : L1.EnvLaws markEnv := ⟨fun _ => rfl, fun _ _ h => by cases h⟩
 
 /-! non-vacuity with compression on: a run over `markEnv` (fragments travel with the header byte in front, so the wire differs
     from the plaintext and positions advance by the compressed length) with reordering and a duplicate meets `Sys.runOk`
-    — including its no-exception conjunct — and the receiver has exactly the accepted messages -/
+    and the receiver has exactly the accepted messages -/
 open Nx.L1 Nx.Prudp in
 example :
     let env := markEnv
